@@ -208,6 +208,12 @@ func c07(c *Ctx) {
 	c.Expect("gate/HasRemoteHaltLock-def", strings.Join(c.returnsOf("litefs.(*DB).HasRemoteHaltLock"), ";"), pat("(sync/atomic.(*Value).Load(&p0.remoteHaltLock).(*litefs.HaltLock) != nil)"), "HasRemoteHaltLock() is remoteHaltLock != nil", "")
 
 	c.remoteHaltFamily("remote-halt")
+	{
+		im := "litefs.(*DB).Import"
+		c.GuardedFrom("publish-gate/Import/after-blocking-call", im, p.PlainCalls("litefs.(*DB).AcquireWriteLock"), p.PlainCalls("litefs.(*DB).importToLTX"), gs(GP("litefs.(*Store).IsPrimary(p0.store)", true)), 1,
+			"the primary role is checked again after the wait for the write lock and before the import's transaction file is built and published",
+			"F55: a node demoted while the import waited for the lock published and applied the import without write authority")
+	}
 
 	// fuse: database removal
 	rm := "fuse.(*RootNode).Remove"
